@@ -215,6 +215,36 @@ func (s *gState) cycleSkipDecoders(i int) {
 	s.cycles["skip-decoders"]++
 }
 
+// cycleFailing makes pooled decoders / readers fail half way through a value and releases them:
+// whatever a failed call leaves in a pooled object is inherited by the next user (any goroutine).
+func (s *gState) cycleFailing(i int) {
+	v := ref.Value{T: ref.STRUCT, Fields: []ref.Field{{ID: 1, V: ref.Value{T: ref.STRING, S: taggedBytes(s.g, i, 9, 20+s.r.Intn(200))}}, {ID: 2, V: ref.Value{T: ref.LIST, VT: ref.I64, Elems: []ref.Value{{T: ref.I64, I: 1}, {T: ref.I64, I: 2}}}}}}
+	enc := v.Encode(nil)
+	cut := 4 + s.r.Intn(len(enc)-5)
+	bad := enc[:cut]
+	if s.r.Intn(2) == 0 {
+		bad = append(append([]byte(nil), enc[:cut]...), 0x7f, 0x7f, 0x7f, 0x7f)
+	}
+	nb := &doubles.NBReader{B: bad}
+	d := thrift.NewSkipDecoder(nb)
+	if _, err := d.Next(thrift.STRUCT); err == nil {
+		s.fail("concurrent-skipdecoder-bytes", i, "SkipDecoder accepted a truncated value")
+	}
+	d.Release()
+	bd := thrift.NewBytesSkipDecoder(bad)
+	bd.Next(thrift.STRUCT)
+	bd.Release()
+	rd := thrift.NewReaderSkipDecoder(&doubles.Source{Data: bad, Len: len(bad), ErrAt: len(bad), Err: io.EOF, Sched: doubles.SchedSmall, R: s.r, Yield: true, Budget: 100000})
+	rd.Next(thrift.STRUCT)
+	rd.Release()
+	dr := bufiox.NewDefaultReader(&doubles.Source{Data: bad, Len: len(bad), ErrAt: len(bad), Err: doubles.ErrCustom, Sched: doubles.SchedSmall, R: s.r, Yield: true, Budget: 100000})
+	br := thrift.NewBufferReader(dr)
+	br.Skip(thrift.STRUCT)
+	br.Recycle()
+	dr.Release(nil)
+	s.cycles["failing-calls"]++
+}
+
 func (s *gState) cycleTTHeader(i int) {
 	ctx := context.Background()
 	p := ttheader.EncodeParam{Flags: ttheader.HeaderFlags(s.g), SeqID: int32(i), ProtocolID: ttheader.ProtocolIDThriftBinary,
@@ -414,7 +444,9 @@ func monC14(c *drv.Ctx) {
 				// the very first action of every goroutine is a lookup on the freshly loaded maps
 				st.cycleSharedMaps(0, maps[st.g%len(maps)])
 				for i := 1; i <= g.iters && st.failure == nil; i++ {
-					switch st.r.Intn(6) {
+					switch st.r.Intn(7) {
+					case 6:
+						st.cycleFailing(i)
 					case 0, 1:
 						st.cycleWriterReader(i)
 					case 2:
